@@ -88,6 +88,33 @@ def one_case():
                     return
 
 
+def history_case():
+    """the result of a call depends on the arguments of that call only: the same dictionary object edited in place, and another category list of the same length"""
+    cats = rng.sample(CATS, 4)
+    cd = {'the': [cats[0]], 'dog': [cats[1], cats[2]]}
+    for step in range(3):
+        n = 3
+        doc = [[Token(word=w) for w in ('the', 'dog', 'runs')]]
+        sc = [ScoringResult(np.array([[rng.uniform(-9, 0) for _ in range(4)] for _ in range(n)], dtype=np.float32), np.zeros((n, n + 1), dtype=np.float32))]
+        old = sc[0].tag_scores.copy()
+        stats['n'] += 1
+        try:
+            P.apply_category_filters(doc, sc, cats, cd, -1e6)
+        except Exception as e:   # noqa
+            return fail('apply_category_filters raises on an applicable dictionary', error=repr(e)[:200], step=step)
+        for ti, w in enumerate(('the', 'dog', 'runs')):
+            for j, c in enumerate(cats):
+                want = np.float32(-1e6) if (w in cd and c not in cd[w]) else old[ti, j]
+                if not (sc[0].tag_scores[ti, j] == want):
+                    return fail('tag score cell differs from the contract', history='call %d on the same dictionary object (edited in place / other category list between the calls)' % (step + 1),
+                                word=w, category=str(c), got=float(sc[0].tag_scores[ti, j]), want=float(want))
+        if step == 0:
+            cd['runs'] = [cats[3]]             # a word added in place
+            cd['dog'] = [cats[0]]              # a list replaced in place
+        elif step == 1:
+            cats = [cats[1], cats[0], cats[3], cats[2]]      # another inventory of the same length
+
+
 def data_clause():
     """every dictionary category belongs to the inventory; every shipped category string is well formed and prints back"""
     md = os.path.join(REPO, 'depccg/models')
@@ -144,6 +171,8 @@ t0 = time.time()
 N = 400 if tier == 'quick' else 6000
 for _ in range(N):
     one_case()
+for _ in range(5):
+    history_case()
 data_clause()
 print(json.dumps(dict(evaluations=stats['n'], distinct_nontrivial=len(stats['distinct']), cells_checked=stats['cells'], data_entries_checked=stats['data'], failures=fails,
                       wall=round(time.time() - t0, 1),
